@@ -576,8 +576,53 @@ class LowerToIRVisitor(Visitor.DefaultVisitor):
                 ctx.BasicBlock.AddInstruction(result)
                 return result
         elif left.Type.IsMatrix() and right.Type.IsVector():
-            # M <op> V, needs to get lowered to matrix-vector multiply
-            pass
+            # M * V is lowered to one dot product per row: the row times the
+            # vector component-wise, and then the sum of the components
+            assert be.GetOperation() == op.Operation.MUL
+
+            leftType = left.Type
+            resultType = ctx.AdaptType(be.GetType())
+            elementType = resultType.ElementType
+
+            components = []
+            for row in range(leftType.RowCount):
+                leftRow = LinearIR.MatrixAccessInstruction(
+                    leftType.RowType,
+                    left,
+                    ctx.Function.CreateConstant(LinearIR.IntegerType(), row),
+                )
+                ctx.BasicBlock.AddInstruction(leftRow)
+
+                products = LinearIR.BinaryInstruction(
+                    LinearIR.OpCode.VECTOR_MUL, leftType.RowType, leftRow, right
+                )
+                ctx.BasicBlock.AddInstruction(products)
+
+                total = None
+                for column in range(leftType.ColumnCount):
+                    component = LinearIR.VectorAccessInstruction(
+                        elementType,
+                        products,
+                        ctx.Function.CreateConstant(
+                            LinearIR.IntegerType(), column
+                        ),
+                    )
+                    ctx.BasicBlock.AddInstruction(component)
+
+                    if total is None:
+                        total = component
+                    else:
+                        total = LinearIR.BinaryInstruction(
+                            LinearIR.OpCode.ADD, elementType, total, component
+                        )
+                        ctx.BasicBlock.AddInstruction(total)
+                components.append(total)
+
+            result = LinearIR.ConstructPrimitiveInstruction(
+                resultType, components
+            )
+            ctx.BasicBlock.AddInstruction(result)
+            return result
         elif left.Type.IsMatrix() and right.Type.IsScalar():
             # M <op> S, needs to get lowered to vector-scalar multiply or
             # division
